@@ -278,7 +278,7 @@ theorem scaleFb_zeros (p : Parameter ℝ ℝ) (n k : ℕ) (i : ℕ) :
     scaleFb p n i (List.replicate k (Frame.zero : Frame ℝ)) = List.replicate k Frame.zero := by
   induction k generalizing i with
   | zero => rfl
-  | succ k ih => simp [List.replicate_succ, scaleFb, Frame.zero_scale, ih]
+  | succ k ih => simp [List.replicate_succ, scaleFb, FrameB.zero_scale, ih]
 
 theorem mixOut_zeros (p : Parameter ℝ ℝ) (n k : ℕ) (i : ℕ) :
     mixOut p n i (List.replicate k (Frame.zero : Frame ℝ)) (List.replicate k Frame.zero)
@@ -292,7 +292,7 @@ theorem zipWith_add_zeros (k : ℕ) :
       = List.replicate k Frame.zero := by
   induction k with
   | zero => rfl
-  | succ k ih => simp [List.replicate_succ, Frame.add_zero]
+  | succ k ih => simp [List.replicate_succ, FrameB.add_zero]
 
 /-- a set `Q` of feedback-effect states from which silence stays silence -/
 def SilentChain (C : FxChain ℝ φ) (dt : ℝ) (info : Info ℝ) (Q : φ → Prop) : Prop :=
